@@ -226,6 +226,12 @@ def value_for(rng, shape, key):
         if hi < lo:
             hi = lo
         n = rng.randint(lo, hi)
+        if k == "number" and rng.random() < .12:
+            # floats that Python writes in exponent notation (|x| < 1e-4 or >= 1e16)
+            cands = [f for f in (1e-05, 5e-05, 2.5e-07, 1e+16, 1.5e+17, -5e-05) if lo <= f <= hi]
+            if cands:
+                f = rng.choice(cands)
+                return f, [(rng.choice([repr(f), "%.8f" % f if abs(f) < 1 else repr(f)]), "num")], "float"
         if k == "number" and rng.random() < .5 and n < hi:
             f = n + rng.choice([0.5, 0.25, 0.125])
             return f, [(repr(f), "num")], "float"
@@ -420,6 +426,8 @@ def tok_text(lay, t):
     text, kind = t
     if kind == "qstr":
         return lay.q(text)
+    if kind == "word" and text in ("TRUE", "FALSE"):
+        return lay.kw(text)          # the boolean words are keywords: any letter case
     return text
 
 
